@@ -309,6 +309,10 @@ PANIC_CALLS = [
     (r"^core::num::<impl [iu][0-9a-z]+>::(pow|abs|div_euclid|rem_euclid|next_power_of_two|ilog|ilog2|ilog10)$|^[iu](8|16|32|64|128|size)::(pow|abs|div_euclid|rem_euclid|next_power_of_two|ilog|ilog2|ilog10)$", "int-op"),
     (r"^core::char::methods::<impl char>::from_digit$|^char::from_digit$", "char-op"),
     (r"^core::iter::traits::iterator::Iterator::step_by$|^core::slice::<impl \[T\]>::(chunks|windows)$", "iter-op"),
+    # operator-trait arithmetic on the repo's big-integer / decimal wrappers panics on overflow or division by zero
+    (r"^<radix_common::math::(bnum_integer::\w+|decimal::Decimal|precise_decimal::PreciseDecimal)(<.*>)? as core::ops::(arith|bit)::(Add|Sub|Mul|Div|Rem|Neg|Shl|Shr|AddAssign|SubAssign|MulAssign|DivAssign)(<.*>)?>::\w+$", "bigint-op"),
+    (r"^radix_common::math::bnum_integer::\w+::(pow|abs|nth_root)$", "bigint-op"),
+    (r"^num_bigint::|^<num_bigint::", "bigint-lib-op"),
 ]
 _PANIC_RES = [(re.compile(p), k) for p, k in PANIC_CALLS]
 
